@@ -17,7 +17,7 @@ RULE = ('quick/thorough: EVERY non-decreasing spike-sample train of length <= L 
         'length <= L-2) x (bin, half-window) in {(1,0),(1,1),(2,1),(1,3),(3,2)}, sample rate and '
         'cluster-id list order (a permutation of gappy ids - small ones or, every fifth case, sparse ids up to 100000 - plus one id without spikes) rotating '
         'deterministically; plus seeded random long trains checked by a windowed pair count. '
-        'Each case checks one-sided counts, the symmetrised array (4 relations), cluster_ids=None, '
+        'cluster dtypes int64/int32/uint32/uint16 and integer or float time arrays rotate. Each case checks one-sided counts (twice), the symmetrised array (4 relations), cluster_ids=None, '
         'and firing_rate. non-trivial = distinct (train, labels, params, id order) that has equal '
         'times or a pair exactly in the last bin of the window AND an id list that is not sorted.')
 EXHAUSTIVE = {'quick': True, 'thorough': True}
@@ -102,8 +102,14 @@ def run_case(case, ctx):
     pos_of_label = {j: id_list.index(ids[j]) for j in range(k)}
     lab_pos = np.array([pos_of_label[int(l)] for l in labels], dtype=np.int64)
     nC = len(id_list)
-    spike_clusters = np.array([ids[int(l)] for l in labels], dtype=np.int64)
+    cdt = ['int64', 'int32', 'uint32', 'uint16'][(len(labels) + b + h + k) % 4]
+    if case.get('bigids') and cdt == 'uint16':
+        cdt = 'uint32'
+    spike_clusters = np.array([ids[int(l)] for l in labels], dtype=cdt)
     times = samples / rate
+    if rate == 1.0 and (len(labels) + h) % 2:
+        times = samples.copy()              # integer times are as good as float ones when the rate is 1
+    sc_before, t_before = spike_clusters.copy(), times.copy()
     bin_size = b / rate
     window = 2 * h * bin_size if h else bin_size * 0.5
 
@@ -131,6 +137,13 @@ def run_case(case, ctx):
     d = same(r.value, exp, dtype=False)
     if d:
         ctx.violation('one_sided_count_mismatch', case, d, feats)
+    # (1b) a second identical call gives the same answer and the caller's arrays are left alone
+    r1b = call(correlograms, times, spike_clusters, cluster_ids=list(id_list), sample_rate=rate,
+               bin_size=bin_size, window_size=window, symmetrize=False)
+    if r1b.ok and same(r1b.value, exp, dtype=False):
+        ctx.violation('one_sided_count_mismatch', case, 'second identical call: ' + same(r1b.value, exp, dtype=False), dict(feats, repeat=True))
+    if not (np.array_equal(spike_clusters, sc_before) and np.array_equal(times, t_before)):
+        ctx.violation('inputs_modified', case, 'correlograms modified the arrays passed by the caller', feats)
     # (2) symmetrised
     r2 = call(correlograms, times, spike_clusters, cluster_ids=np.array(id_list), sample_rate=rate,
               bin_size=bin_size, window_size=window, symmetrize=True)
